@@ -41,6 +41,7 @@ func init() {
 		Title: "Containment and winding queries agree with the path's winding number",
 		Explanation: "Decides: in RayIntersections the per-segment pre-filter hull is a pure Min/Max tree over start, end and every decoded control point (arc: centre∓max(rx,ry)), so no segment the ray can cross is skipped; Contains returns fillRule.Fills(n) for n from Windings(x, y); Windings/Crossings visit every element of Split(); Fills agrees with the rule definitions. NOT decided: the ray/segment case analysis at end points, horizontals and tangents, CCW, Filling's nesting logic.",
 		Run: func(c *core.Ctx, r *core.Report) {
+			E3RayImplicitClose(c, r)
 			E3RayHull(c, r)
 			E9ContainsFlow(c, r)
 			E9Fills(c, r)
@@ -234,6 +235,7 @@ func init() {
 		Explanation: "Decides the unit and coverage tables of the importer for every document: parseDimension's factors equal the CSS absolute-unit and angle tables (constant folding); the canvas size is in millimetres on every branch (explicit width/height and viewBox fallback use the same px→mm factor) and init uses the inverse factor, the y-down coordinate system and the size/viewBox user-unit scale (px→mm without a viewBox); drawShape has a case for each basic shape; the path data parser's index guards and explicit-panic freedom are decided under C11. NOT decided: styling precedence, CSS selectors, transform order, per-element geometry, the write/read round trip.",
 		Run: func(c *core.Ctx, r *core.Report) {
 			E11SVGTransformTable(c, r)
+			E11CopyStore(c, r)
 			E11SVGUnits(c, r)
 			E11ReuseAfterEscape(c, r, "/svg.go")
 		},
@@ -247,6 +249,7 @@ func init() {
 		Run: func(c *core.Ctx, r *core.Report) {
 			E3LineHeights(c, r)
 			E11BreakWidth(c, r)
+			E11SpanShift(c, r)
 		},
 	})
 }
